@@ -363,8 +363,16 @@ def model_request(call) -> Optional[tuple[dict, Any]]:
         return ({"fn": "cview", "cls": cls, "view": method, "params": params, "state": enc_state(state)}, enc_view(value))
     payload = args[0]
     new_state, events = getattr(comp, method)(copy.deepcopy(payload), copy.deepcopy(state))
+    enc_payload = None
+    for plug in PLUGINS:                      # part models may encode non-numeric payloads (pydantic models, dicts)
+        f = getattr(plug, "enc_payload", None)
+        enc_payload = f(comp, method, payload) if f is not None else None
+        if enc_payload is not None:
+            break
+    if enc_payload is None and isinstance(payload, (int, float)) and not isinstance(payload, bool):
+        enc_payload = units(payload)
     req = {"fn": "reducer", "cls": cls, "method": method, "params": params, "state": enc_state(state),
-           "payload": units(payload) if isinstance(payload, (int, float)) and not isinstance(payload, bool) else None}
+           "payload": enc_payload}
     return (req, {"state": enc_state(new_state), "events": enc_revents(comp, events)})
 
 
